@@ -164,3 +164,48 @@ def did_change_scenario(binary, doc, changes, probe=True):
         return out
     finally:
         s.close()
+
+
+def workspace_scenario(binary, files, open_rel, probes, timeout=30.0):
+    """files: {relative path: text} written to a fresh directory tree BEFORE the server starts; didOpen(open_rel); then
+    textDocument/definition at each probe (line, character) of that document.  returns [target relative path or None per probe]"""
+    root = tempfile.mkdtemp(prefix='glas-verif-ws-', dir=dump.scratch('lsp'))
+    try:
+        for rel, text in files.items():
+            p = os.path.join(root, rel)
+            os.makedirs(os.path.dirname(p), exist_ok=True)
+            open(p, 'w').write(text)
+        s = Session.__new__(Session)
+        s.root = root
+        env = dict(os.environ, GLEAM_PATH='/nonexistent/gleam')
+        s.p = subprocess.Popen([binary, '--stdio'], stdin=subprocess.PIPE, stdout=subprocess.PIPE, stderr=subprocess.DEVNULL, env=env, cwd=root)
+        s.q = queue.Queue(); s.timeout = timeout; s.next_id = 1; s.unexpected = []
+        threading.Thread(target=s._reader, daemon=True).start()
+        r = s.request('initialize', {'processId': None, 'rootUri': 'file://' + root, 'capabilities': {}})
+        if 'result' not in (r or {}):
+            raise RuntimeError('initialize failed: %r' % (r,))
+        s.notify('initialized', {})
+        uri = 'file://%s/%s' % (root, open_rel)
+        s.notify('textDocument/didOpen', {'textDocument': {'uri': uri, 'languageId': 'gleam', 'version': 1, 'text': files[open_rel]}})
+        out = []
+        for (line, ch) in probes:
+            r = s.request('textDocument/definition', {'textDocument': {'uri': uri}, 'position': {'line': line, 'character': ch}})
+            res = r.get('result') if isinstance(r, dict) else None
+            if isinstance(res, dict):
+                res = [res]
+            if not res:
+                out.append(None if isinstance(r, dict) and 'result' in r else {'raw': r}); continue
+            t = res[0].get('uri') or res[0].get('targetUri') or ''
+            out.append(t[len('file://' + root) + 1:] if t.startswith('file://' + root) else t)
+        alive = s.alive()
+        try:
+            s.request('shutdown', None); s.notify('exit', None); s.p.wait(timeout=5)
+        except Exception:
+            pass
+        try:
+            s.p.kill()
+        except Exception:
+            pass
+        return out, alive
+    finally:
+        shutil.rmtree(root, ignore_errors=True)
